@@ -2,6 +2,7 @@ package main
 
 import (
 	"bytes"
+	"compress/gzip"
 	"encoding/json"
 	"fmt"
 	"io"
@@ -218,6 +219,32 @@ func byteMutations(r *rand.Rand, name string, content []byte, n int) []mutation 
 	return muts
 }
 
+func tailMutations(r *rand.Rand, name string, content []byte) []mutation {
+	muts := []mutation{}
+	add := func(kind string, b []byte) {
+		nm, nb := name, b
+		muts = append(muts, mutation{kind: "bytes:" + kind, desc: fmt.Sprintf("%s: %s", name, kind), app: func(dir string) { os.WriteFile(filepath.Join(dir, nm), nb, 0600) }})
+	}
+	if strings.HasSuffix(name, ".gz") {
+		// several bit flips in the compressed payload (after the 10-byte header, before the trailer)
+		for i := 0; i < 24 && len(content) > 20; i++ {
+			b := append([]byte{}, content...)
+			k := 10 + r.Intn(len(b)-18)
+			b[k] ^= 1 << uint(r.Intn(8))
+			add(fmt.Sprintf("gzflip@%d", k), b)
+		}
+		// trailer (CRC32, ISIZE) damaged
+		b := append([]byte{}, content...)
+		b[len(b)-6] ^= 0x10
+		add("gzcrc", b)
+		return muts
+	}
+	for _, tail := range []string{"}", "{\"x\":1}", "\x00\x00\x00\x00", "\n[1,2]", "garbage", "null"} {
+		add(fmt.Sprintf("tail %q", tail), append(append([]byte{}, content...), []byte(tail)...))
+	}
+	return muts
+}
+
 func strayMutations(objName string) []mutation {
 	mk := func(kind, desc string, f func(dir string)) mutation {
 		return mutation{kind: "stray:" + kind, desc: desc, app: f}
@@ -250,7 +277,11 @@ func strayMutations(objName string) []mutation {
 // and the list of calls that panicked.
 func callSequence(root string, uuids []string, rep *hostileReport) (first string, panics []string) {
 	db := sod.Open(root)
+	hung := false
 	run := func(name string, f func() string) string {
+		if hung {
+			return "SKIPPED" // a call that never returned holds the handle: nothing after it is meaningful
+		}
 		done := make(chan string, 1)
 		go func() {
 			defer func() {
@@ -269,13 +300,25 @@ func callSequence(root string, uuids []string, rep *hostileReport) (first string
 			return res
 		case <-time.After(15 * time.Second):
 			panics = append(panics, name+": HANG")
+			hung = true
 			return "HANG"
 		}
 	}
 	first = run("Count", func() string { _, err := db.Count(&T{}); return errClass(err) })
+	if data, err := os.ReadFile(filepath.Join(root, "main.T", "schema.json")); err == nil {
+		var doc interface{}
+		if jerr := json.Unmarshal(data, &doc); jerr != nil && first == "ok" {
+			panics = append(panics, fmt.Sprintf("the first access succeeded although schema.json is not a JSON document (%v)", jerr))
+		}
+	}
 	for _, u := range uuids {
 		u := u
-		run("Get", func() string { t := &T{}; t.Initialize(u); _, err := db.Get(t); return errClass(err) })
+		// reference reader: the whole file, gzip trailer checked, one JSON document and nothing else
+		undecodable := strictDecodeError(filepath.Join(root, "main.T"), u)
+		res := run("Get", func() string { t := &T{}; t.Initialize(u); _, err := db.Get(t); return errClass(err) })
+		if undecodable != "" && res == "ok" {
+			panics = append(panics, fmt.Sprintf("Get %s returned an object although its file cannot be decoded (%s)", u, undecodable))
+		}
 		run("Exist", func() string { t := &T{}; t.Initialize(u); _, err := db.Exist(t); return errClass(err) })
 	}
 	run("All", func() string { _, err := db.All(&T{}); return errClass(err) })
@@ -413,7 +456,14 @@ func runHostile(root string, seed int64, nBytes int) {
 				muts = append(muts, whole...)
 			}
 		}
+		// always tried, in every variant: a valid document followed by something else, and (for
+		// compressed files) flips inside the deflate stream that the gzip trailer must catch
+		muts = append(muts, tailMutations(r, "schema.json", schema)...)
+		muts = append(muts, tailMutations(r, objName, obj)...)
 		for _, m := range muts {
+			if len(rep.Failures) >= 12 {
+				break // enough to report; hangs cost 15 s each
+			}
 			work := filepath.Join(root, "work")
 			copyDir(base, work)
 			wdir := filepath.Join(work, "main.T")
@@ -445,4 +495,37 @@ func runHostile(root string, seed int64, nBytes int) {
 	if len(rep.Failures) > 0 {
 		os.Exit(1)
 	}
+}
+
+// strictDecodeError reads the object file of u the way the format is defined: the complete file
+// (for .gz: a gzip stream whose CRC and size trailer check), holding exactly one JSON document that
+// decodes into T.  Returns "" when the file is absent or decodes, the reason otherwise.
+func strictDecodeError(dir, u string) string {
+	entries, err := os.ReadDir(dir)
+	if err != nil {
+		return ""
+	}
+	for _, en := range entries {
+		if !strings.HasPrefix(en.Name(), u) || en.IsDir() {
+			continue
+		}
+		data, err := os.ReadFile(filepath.Join(dir, en.Name()))
+		if err != nil {
+			return ""
+		}
+		if strings.HasSuffix(en.Name(), ".gz") {
+			zr, err := gzip.NewReader(bytes.NewReader(data))
+			if err != nil {
+				return "gzip: " + err.Error()
+			}
+			if data, err = io.ReadAll(zr); err != nil {
+				return "gzip: " + err.Error()
+			}
+		}
+		if err := json.Unmarshal(data, &T{}); err != nil {
+			return "json: " + err.Error()
+		}
+		return ""
+	}
+	return ""
 }
